@@ -216,6 +216,36 @@ pub fn shuffled_dags() -> Vec<(String, P)> {
     out
 }
 
+/// The i-th member of a complete mini-universe on `m` operations: operations 0 and 1 are producers, three consumers
+/// with pairwise different indices x, y (both reading producer 0) and z (reading producer 1), a join reading all three
+/// consumers at index j, every other operation idle (0 -> 0). All (x, y, z, j) with distinct indices in 2..m. The second
+/// Kahn level is then discovered in the order x, y, z for every relative order and spacing of three sparse indices.
+pub fn sparse_frontier_count(m: usize) -> u64 {
+    let k = (m - 2) as u64;
+    k * (k - 1) * (k - 2) * (k - 3)
+}
+pub fn sparse_frontier(m: usize, i: u64) -> P {
+    let k = (m - 2) as u64;
+    // unrank four distinct indices out of 2..m
+    let mut free: Vec<usize> = (2..m).collect();
+    let mut r = i;
+    let mut pick = |base: u64| {
+        let p = (r % base) as usize;
+        r /= base;
+        free.remove(p)
+    };
+    let (x, y, z, j) = (pick(k), pick(k - 1), pick(k - 2), pick(k - 3));
+    // nodes: 0 = output of producer 0, 1 = output of producer 1, 2..5 = outputs of x, y, z; 5 = output of the join
+    let mut edges: Vec<PEdge<u8>> = (0..m).map(|_| edge(0, vec![], vec![])).collect();
+    edges[0] = edge(0, vec![], vec![0]);
+    edges[1] = edge(0, vec![], vec![1]);
+    edges[x] = edge(0, vec![0], vec![2]);
+    edges[y] = edge(0, vec![0], vec![3]);
+    edges[z] = edge(0, vec![1], vec![4]);
+    edges[j] = edge(0, vec![2, 3, 4], vec![5]);
+    P { nodes: vec![0; 6], edges, s: vec![], t: vec![5] }
+}
+
 /// diagrams that are monogamous except (possibly) at one node whose in- or out-degree is k, reached through one wide
 /// hyperedge (multiplicity k) or through k hyperedges; with that node on or off the interface. For the degree and
 /// monogamy predicates (every other node is fine, so the answer hinges on the one node).
